@@ -150,6 +150,22 @@ def check(ctx) -> None:
                     ok3 = isinstance(base, ast.Name) and (base.id in f.params or bool(assignments_to(f, base.id)) or any(base.id in {x.id for x in ast.walk(l.target) if isinstance(x, ast.Name)} for l in own_nodes(f.node) if isinstance(l, ast.For)))
                     if not ok3:
                         ctx.finding("C11-X2", "%s:handler-foreign-record" % short, f.loc(st), "the issue is written to %s, which is not the record of the current row" % unparse(base))
+    # ---------------------------------------------------------------- X5
+    ctx.rule("C11-X5", "every per-row job waits on a private one-thread pool that is created and terminated inside the job", 2)
+    for f, _ in jobs:
+        pools = [n for n in own_nodes(f.node) if isinstance(n, ast.Assign) and isinstance(n.value, ast.Call) and unparse(n.value.func).split(".")[-1] in ("ThreadPool", "Pool", "ThreadPoolExecutor")]
+        asyncs = [c for c in calls(f) if isinstance(c.func, ast.Attribute) and c.func.attr in ("apply_async", "submit")]
+        if not asyncs:
+            continue
+        short = f.qualname.split("synrbl.", 1)[-1]
+        for a in asyncs:
+            recv = a.func.value
+            local = isinstance(recv, ast.Name) and any(isinstance(p.targets[0], ast.Name) and p.targets[0].id == recv.id for p in pools)
+            term = [c for c in calls(f) if isinstance(c.func, ast.Attribute) and c.func.attr in ("terminate", "shutdown", "close") and unparse(c.func.value) == unparse(recv)]
+            ok = local and len(term) >= 1
+            ctx.instance("C11-X5", "%s: job submitted to %s (created in the job: %s, terminated: %d site(s))" % (short, unparse(recv), local, len(term)), f.loc(a), ok=ok)
+            if not ok:
+                ctx.finding("C11-X5", "%s:shared-watchdog-pool" % short, f.loc(a), "the job is submitted to %s, which is not a pool created and terminated inside this job: a search that runs past its timeout keeps the shared worker busy and the following, unaffected reactions time out behind it" % unparse(recv))
     # ---------------------------------------------------------------- X3
     imp = prog.func(IMPUTE)
     icfg = CFG(imp.node)
@@ -212,3 +228,8 @@ def check(ctx) -> None:
             ctx.finding("C11-X4", "%s:row-removed" % g.qualname.split("synrbl.", 1)[-1], g.loc(bad), "the MCS stage removes rows from the list: %s" % unparse(bad)[:50])
         if not same:
             ctx.finding("C11-X4", "%s:returns-other-list" % g.qualname.split("synrbl.", 1)[-1], g.loc(), "the MCS stage returns something other than the row list it was given")
+    # X6: a failed job keeps its slot in the per-condition tables (shared with C10-A2)
+    from . import c10
+
+    ctx.rule("C11-X6", "failed / timed-out jobs keep their position in every per-condition table", 1)
+    c10.totals_alignment(ctx, "C11-X6")
